@@ -63,7 +63,7 @@ def run(tier, seed, replay=None):
                     "1-11 calls (a quarter flush a single key), forced flushes, commit or rollback, then the store's buffer tier and a fresh snapshot are inspected",
                per_trace=stats, samples=samples, exhaustive=False,
                checker_cmd="go test -overlay harness/unionstore -run TestVerifPipelined ; tlc Trace_Pipelined ; txnh -mode c16 (unistore) ; tlc PipelinedTxn")
-    vlib.write_evidence(PROP, tier, seed, "trace_validation", cov, time.time() - t0, nviol + len(v.known_hits),
+    vlib.write_evidence(PROP, tier, seed, "exploration", cov, time.time() - t0, nviol + len(v.known_hits),
                         assumptions=["the reference model Pipelined.tla is deterministic and is not model-checked on its own: its content is the statement of the read order and of the flush protocol",
                                      "transaction level uses unistore (tidb's in-process store), the only store here that implements Flush; no region errors or splits are injected during a pipelined transaction",
                                      "memory-size driven flush thresholds and write throttling are not driven (key-count threshold only)"])
